@@ -204,7 +204,15 @@ def faulted_attempts(ctx, kind, what, clean, data, base, quick, slicer=None, n_s
             prev = c
         ops += [slicer(prev, n), "finish"]
         scripts.append((cs, "script " + " ".join(ops)))
-    outs = run_lines_robust([fl.H(ctx)], [s for _, s in scripts], per_line_timeout=120)
+    # in small batches: a decoder that hangs costs its deadline per script; three of them end the search
+    outs, dead = [], 0
+    for lo in range(0, len(scripts), 6):
+        part = run_lines_robust([fl.H(ctx)], [s for _, s in scripts[lo:lo + 6]], per_line_timeout=120)
+        outs += part
+        dead += sum(1 for (_, sc), o in zip(scripts[lo:lo + 6], part) if len((o or "crash").split(" | ")) != len(sc.split()) - 1)
+        if dead >= 3:
+            scripts = scripts[:len(outs)]
+            break
     ok = True
     for (cs, sc), o in zip(scripts, outs):
         parts = (o or "crash").split(" | ")
